@@ -241,7 +241,7 @@ theorem hasChildren_abs {nodes : List Node} (h : TreeInv nodes) (n : Node) (hn :
       simp only [List.dropLast_singleton] at hcc
       exact h.path_ne_nil n hn hcc.1.symm
     · rw [hpath, List.dropLast_concat] at hcc
-      have : d = n := h.inj d n hdm hn hcc.1
+      have : d = n := h.path_inj d n hdm hn hcc.1
       subst this
       simp [hdclus]
   · rintro ⟨c, hc, hcc⟩
